@@ -339,4 +339,104 @@ def memIds (r : H2C × Colors) (h : Nat) : List Nat :=
 def memCounter (r : H2C × Colors) (Q : List Nat) : List (Nat × Nat) :=
   tally (Q.flatMap (memIds r))
 
+/-! ### mixed collections, selection, and the history of a `LinearIndex`
+
+A collection of single-sketch signatures as selection (`impl Select for Manifest`, manifest.rs:263),
+`CollectionSet::try_from` (collection.rs:44), `KmerMinHash::check_compatible` (minhash.rs:887) and the
+three indexes see it.  Dataset ids are *positions in the manifest*: `Collection::iter` enumerates the
+rows (collection.rs:91), so after a `select` the surviving datasets are renumbered 0, 1, … in their old
+order while every record keeps its internal location.  All sketches use seed 42 (the seed comparison of
+`check_compatible` is not modelled).  The num-style branch of `intersection_size` (smaller sketch with
+`num ≠ 0`) belongs to property C03 and is not modelled: queries are scaled sketches, and a sketch
+compatible with a scaled query has `max_hash ≠ 0`. -/
+
+/-- what selection, compatibility checks and the indexes observe of one single-sketch signature -/
+structure Rec where
+  loc : Nat                 -- position in `Collection::from_sigs`: internal location, and the `d<loc>` of its name
+  ksize : Nat               -- the sketch's stored k (three times the manifest row's for the protein family)
+  mol : Nat                 -- 0 DNA, 1 protein, 2 dayhoff, 3 hp
+  tracked : Bool
+  num : Nat
+  maxHash : Nat
+  scaled : Nat              -- `scaled_for_max_hash(max_hash)`: what the manifest row holds (0 for num sketches)
+  hashes : List Nat
+  deriving DecidableEq, Repr, Inhabited
+
+/-- `Selection` (picklist and containment play no role in `select`) -/
+structure Sel where
+  ksize : Option Nat := none
+  abund : Option Bool := none
+  moltype : Option Nat := none
+  scaled : Option Nat := none
+  num : Option Nat := none
+  deriving DecidableEq, Repr, Inhabited
+
+/-- `Record::from_sig`: `ksize / 3` for the protein family -/
+def Rec.rowKsize (r : Rec) : Nat := if r.mol = 0 then r.ksize else r.ksize / 3
+
+/-- the `filter` closure of `impl Select for Manifest`, criterion by criterion in the order of the code
+(the ksize arm overwrites `valid`, the others conjoin) -/
+def rowValid (sel : Sel) (r : Rec) : Bool :=
+  let valid := true
+  let valid := match sel.ksize with
+    | some k => r.rowKsize == k
+    | none => valid
+  let valid := match sel.abund with
+    | some a => valid && r.tracked == a
+    | none => valid
+  let valid := match sel.moltype with
+    | some m => valid && r.mol == m
+    | none => valid
+  let valid := match sel.scaled with
+    | some sc => valid && r.scaled != 0 && decide (r.scaled ≤ sc)
+    | none => valid
+  let valid := match sel.num with
+    | some n => valid && r.num == n
+    | none => valid
+  valid
+
+/-- `Collection::select` = `Manifest::select`: the rows that pass, in order (never an error) -/
+def selectRecs (sel : Sel) (rs : List Rec) : List Rec := rs.filter (rowValid sel)
+
+/-- `CollectionSet::try_from`: every row `check_compatible` with the first (ksize, then molecule).
+`0` = Ok, `1` = `MismatchKSizes`, `2` = `MismatchDNAProt` -/
+def setCheck : List Rec → Nat
+  | [] => 0
+  | first :: rest =>
+    match rest.find? (fun r => r.rowKsize != first.rowKsize || r.mol != first.mol) with
+    | none => 0
+    | some r => if r.rowKsize != first.rowKsize then 1 else 2
+
+/-- `KmerMinHash::check_compatible` (ksize, hash function, max_hash; seeds are all 42) -/
+def Rec.compat (a b : Rec) : Bool := a.ksize == b.ksize && a.mol == b.mol && a.maxHash == b.maxHash
+
+/-- `LinearIndex`: the collection and the template sketch taken from dataset 0 *when the index was made* -/
+structure Lin where
+  template : Rec
+  recs : List Rec
+  deriving Repr, Inhabited
+
+/-- `LinearIndex::from_collection`; `none` = the index panic of `sig_for_dataset(0)` on an empty collection -/
+def Lin.make : List Rec → Option Lin
+  | [] => none
+  | r :: rs => some { template := r, recs := r :: rs }
+
+/-- `impl Select for LinearIndex`: select the collection, re-validate as a `CollectionSet`; the template
+is carried over unchanged.  `Except.error` = the code of `setCheck`. -/
+def Lin.select (sel : Sel) (l : Lin) : Except Nat Lin :=
+  let rs := selectRecs sel l.recs
+  match setCheck rs with
+  | 0 => .ok { l with recs := rs }
+  | e => .error e
+
+/-- `LinearIndex::counter_for_query`; `none` = a panic: some dataset's sketch is not compatible with the
+template (`select_sketch` → "Couldn't find a compatible MinHash") or with the query (`intersection_size`) -/
+def Lin.counter (l : Lin) (q : Rec) : Option (List (Nat × Nat)) :=
+  if l.recs.all (fun r => r.compat l.template && r.compat q) then
+    some (linearCounter (l.recs.map (·.hashes)) q.hashes)
+  else none
+
+/-- the internal locations in id order (`collection().iter()`) -/
+def locsOf (rs : List Rec) : List Nat := rs.map (·.loc)
+
 end RevIdx
